@@ -630,6 +630,9 @@ def architectures():
         ("GaussianTanhPolicy(GaussianMLP)", lambda: P.GaussianTanhPolicy(GaussianMLP(False, 3, 2, [4], "relu", r()), space)),
         ("GaussianPolicy(GaussianMLP)", lambda: P.GaussianPolicy(GaussianMLP(True, 3, 2, [4], "relu", r()))),
         ("SoftmaxPolicy(MLP)", lambda: P.SoftmaxPolicy(MLP(3, 2, [2], "relu", r()))),
+        # module lists with more than ten entries: list index 10 sorts before 2 as a string, after it as a number
+        ("MLP[12 hidden layers]", lambda: MLP(3, 2, [2, 3, 2, 3, 2, 3, 2, 3, 2, 3, 2, 3], "relu", r())),
+        ("LayerNormMLP[11 hidden layers]", lambda: LayerNormMLP(2, 1, [2, 1, 2, 1, 2, 1, 2, 1, 2, 1, 2], "relu", r())),
     ]
 
 
